@@ -34,6 +34,9 @@ func (a *Act) baseEnv(st *State) *Env {
 
 func debugName(d *ssa.DebugRef) string {
 	if o := d.Object(); o != nil {
+		if v, ok := o.(*types.Var); ok && v.IsField() {
+			return "" // a field selection x.f is not the local variable f
+		}
 		return o.Name()
 	}
 	return ""
@@ -121,7 +124,11 @@ func (a *Act) resolveAtHeader(li *loopInfo, phis map[*ssa.Phi]Val, name string, 
 // resolveDom looks for the value of a source variable along the dominator chain.
 func (a *Act) resolveDom(b *ssa.BasicBlock, name string, st *State) (Val, bool) {
 	for ; b != nil; b = b.Idom() {
-		for i := len(b.Instrs) - 1; i >= 0; i-- {
+		start := len(b.Instrs) - 1
+		if b == a.curBlk && a.curIdx <= start {
+			start = a.curIdx - 1 // only what has been executed so far in the current block
+		}
+		for i := start; i >= 0; i-- {
 			switch d := b.Instrs[i].(type) {
 			case *ssa.DebugRef:
 				if debugName(d) != name {
